@@ -3,12 +3,14 @@ package main
 // Symbolic executor over go/ssa: block/instruction interpreter.
 
 import (
+	"crypto/sha1"
 	"fmt"
 	"go/constant"
 	"go/token"
 	"go/types"
 	"os"
 	"strings"
+	"sync"
 
 	"golang.org/x/tools/go/ssa"
 )
@@ -23,7 +25,11 @@ type Outcome struct {
 	stopEnv  map[ssa.Value]Val
 }
 
-const maxSteps = 400000
+const maxSteps = 4000000
+
+// pruneAfterPaths: from this many paths on, every fork is preceded by a solver
+// feasibility check of both arms.
+const pruneAfterPaths = 8000
 
 func (x *Run) runFunc(fn *ssa.Function, args []Val, bindings []Val, st *State, parent *Frame, mode FrameMode) []Outcome {
 	fr := &Frame{fn: fn, env: map[ssa.Value]Val{}, names: map[string]Val{}, parent: parent, mode: mode, cut: map[*ssa.BasicBlock]bool{}, unroll: map[*ssa.BasicBlock]int{}}
@@ -273,6 +279,20 @@ func (x *Run) runBlock(fr *Frame, b *ssa.BasicBlock, idx int, st *State) []Outco
 			}
 			if mo, ok := x.tryMerge(fr, st, b, ins, c); ok {
 				return append(outs, mo...)
+			}
+			// large units: ask the solver before forking (an arm whose path
+			// condition is refuted is dropped; "unknown" keeps the arm)
+			if (x.pathN > pruneAfterPaths || x.pruneAll) && x.pureDepth == 0 {
+				if !x.armFeasible(st, c.T) {
+					st.assumeK(not(c.T), 'c')
+					st.trace = append(st.trace, x.branchLabel(ins, false))
+					return append(outs, x.enterBlock(fr, b, b.Succs[1], st)...)
+				}
+				if !x.armFeasible(st, not(c.T)) {
+					st.assumeK(c.T, 'c')
+					st.trace = append(st.trace, x.branchLabel(ins, true))
+					return append(outs, x.enterBlock(fr, b, b.Succs[0], st)...)
+				}
 			}
 			if !x.newPath() {
 				return outs
@@ -809,3 +829,36 @@ func rangeWider(from, to types.Type) bool {
 	}
 	return size(fb) > size(tb)
 }
+
+// armFeasible: false only when the solver refutes pc /\ cond (quantified
+// assumptions are left out: fewer assumptions can only keep an arm alive).
+func (x *Run) armFeasible(st *State, cond string) bool {
+	var b strings.Builder
+	for _, l := range strings.Split(x.d.preamble(), "\n") {
+		if !strings.Contains(l, "(forall ") {
+			b.WriteString(l)
+			b.WriteString("\n")
+		}
+	}
+	for _, c := range st.pc {
+		pl := pcPlain(c)
+		if pl == "false" {
+			return false
+		}
+		if !strings.Contains(pl, "(forall ") {
+			b.WriteString("(assert " + pl + ")\n")
+		}
+	}
+	b.WriteString("(assert " + cond + ")\n")
+	q := b.String()
+	h := sha1.Sum([]byte(q))
+	if v, ok := feasCache.Load(h); ok {
+		return v.(bool)
+	}
+	r := solve(q, 2, false, []string{"z3-new"})
+	ok := r.Status != "unsat"
+	feasCache.Store(h, ok)
+	return ok
+}
+
+var feasCache sync.Map
